@@ -284,6 +284,20 @@ func run(id string, cfg config, tier string, seed int64, work string, replayPath
 		return 2
 	}
 
+	if cfg.StmtProbe {
+		// C20: the -cover probe is needed by the search and by every replay of a statement-count case
+		stmts, probe, err := runStmtProbe(work, replayPath == "")
+		if err != nil {
+			fmt.Fprintf(os.Stderr, "INCONCLUSIVE: statement-count probe: %v\n", err)
+			return 2
+		}
+		os.Setenv("VERIF_C20_PROBE", probe)
+		os.Setenv("VERIF_WORK", work)
+		if stmts != "" {
+			cfg.Env = append(cfg.Env, "VERIF_C20_STMTS="+stmts)
+		}
+	}
+
 	// --- replay mode ---------------------------------------------------------------------------
 	if replayPath != "" {
 		abs, _ := filepath.Abs(replayPath)
@@ -369,15 +383,6 @@ func run(id string, cfg config, tier string, seed int64, work string, replayPath
 		}
 	}
 
-	// --- statement-count probe (C20) -------------------------------------------------------------------
-	if cfg.StmtProbe {
-		path, err := runStmtProbe(work)
-		if err != nil {
-			fmt.Fprintf(os.Stderr, "INCONCLUSIVE: statement-count probe: %v\n", err)
-			return 2
-		}
-		cfg.Env = append(cfg.Env, "VERIF_C20_STMTS="+path)
-	}
 	cfg.Env = append(cfg.Env, "VERIF_TIER_NAME="+tier)
 
 	// --- rapid shards --------------------------------------------------------------------------------
@@ -584,7 +589,7 @@ func run(id string, cfg config, tier string, seed int64, work string, replayPath
 
 // runStmtProbe builds cmd/c20probe with coverage instrumentation of the library and runs it in 16
 // worker processes; returns the path of the merged JSON (family name -> statement counts per size).
-func runStmtProbe(work string) (string, error) {
+func runStmtProbe(work string, measure bool) (string, string, error) {
 	harness := filepath.Join(verifDir, "harness")
 	bin := filepath.Join(work, "c20probe")
 	args := []string{"build", "-cover", "-covermode=atomic", "-coverpkg=github.com/nlnwa/whatwg-url/...,verif/harness/cmd/c20probe", "-o", bin}
@@ -596,7 +601,10 @@ func runStmtProbe(work string) (string, error) {
 	cmd.Dir = harness
 	cmd.Env = goEnv()
 	if out, err := cmd.CombinedOutput(); err != nil {
-		return "", fmt.Errorf("building the probe: %v\n%s", err, out)
+		return "", "", fmt.Errorf("building the probe: %v\n%s", err, out)
+	}
+	if !measure {
+		return "", bin, nil
 	}
 	const workers = 16
 	merged := map[string][]uint64{}
@@ -637,14 +645,14 @@ func runStmtProbe(work string) (string, error) {
 	}
 	wg.Wait()
 	if firstErr != nil {
-		return "", firstErr
+		return "", "", firstErr
 	}
 	path := filepath.Join(work, "c20-stmts.json")
 	data, _ := json.Marshal(merged)
 	if err := os.WriteFile(path, data, 0o644); err != nil {
-		return "", err
+		return "", "", err
 	}
-	return path, nil
+	return path, bin, nil
 }
 
 func oneLine(s string) string {
